@@ -420,7 +420,7 @@ pub fn run_scaled(ctx: Ctx, rep: &mut Report, tiny: bool) {
 pub fn meta() -> CheckMeta {
     CheckMeta {
         level: "exploration",
-        rule: "differential run of FrameCodec against an independent slice-based reference codec: (a) header-only grid of command bytes x length values, (b) encode/decode round trips over 11 commands x boundary ids x boundary lengths, (b2) oversize payload attempts, (b3) several frames encoded one after the other into one buffer (optionally pre-filled) compared with the reference concatenation and decoded back, (c) frame concatenations fed cut at every single position / every pair (short streams) / random multi-cuts / 1-byte drip / around every header, comparing frames, consumed count and exact leftover after every feed, (d) arbitrary and header-shaped byte strings. A case is non-trivial+distinct by its (kind, parameters or leading bytes) hash when at least one frame completes (d) or always (a-c).".into(),
+        rule: "differential run of FrameCodec against an independent slice-based reference codec: (a) header-only grid of command bytes x length values, (b) encode/decode round trips over 11 commands x boundary ids x boundary lengths, (b2) oversize payload attempts, (b3) several frames encoded one after the other into one buffer (optionally pre-filled) compared with the reference concatenation and decoded back, (c) frame concatenations fed cut at every single position / every pair (short streams) / random multi-cuts / 1-byte drip / around every header, comparing frames, consumed count and exact leftover after every feed, (d) arbitrary and header-shaped byte strings. A case is non-trivial+distinct by its (kind, parameters or leading bytes) hash when at least one frame completes (d) or always (a-c). In a session: a real server Session is fed Settings, SYN, 2-5 PSH frames (payload sizes around 8 KiB, 16 KiB and 64 KiB) and FIN in pieces, each piece one transport read, with a cut 0-7 bytes after every frame boundary (a read that ends inside the next header), alone or with a second cut elsewhere; the stream's consumer must obtain exactly the payload bytes of the frames sent, then end of stream.".into(),
         assumptions: vec!["the 40-line reference codec encodes the protocol description correctly".into(), "ids beyond the boundary set and payload contents are sampled, not enumerated".into()],
         floors: vec![("header_only_decodes", 30_000), ("roundtrips", 1000), ("frames_encoded_into_shared_buffers", 1000), ("fragmentations_checked", 3000), ("frames_decoded_from_arbitrary_strings", 1000), ("in_session_fragmentations", 500)],
         exhaustive: false,
